@@ -1,6 +1,6 @@
 CONSTANTS
   Chunks <- STRUCT
-  MaxChunks = 3
+  MaxChunks = 4
   Structured = TRUE
   Export = TRUE
   StampAtEmission = FALSE
